@@ -41,8 +41,11 @@ class VersionConverter(object):
 
         :return: ElementTree
         """
-        # Make pretty print available by resetting format
-        parser = ET.XMLParser(remove_blank_text=True)
+        # Make pretty print available by resetting format. Comments and processing
+        # instructions are dropped: they are no part of the text they interrupt,
+        # lxml ends the text of an element at the first of them.
+        parser = ET.XMLParser(remove_blank_text=True, remove_comments=True,
+                              remove_pis=True)
         if isinstance(self.filename, io.StringIO):
             doc = self.filename.getvalue()
             # The content is already decoded; lxml refuses unicode strings
